@@ -63,6 +63,13 @@ func init() {
 type Coin uint64
 
 func ParseZCN(c float64) (Coin, error) {
+	// decimal.NewFromFloat panics on NaN and infinities
+	if math.IsNaN(c) || math.IsInf(c, -1) {
+		return 0, ErrNegativeValue
+	}
+	if math.IsInf(c, 1) {
+		return 0, ErrTooLarge
+	}
 	d := decimal.NewFromFloat(c)
 	if d.Sign() == -1 {
 		return 0, ErrNegativeValue
